@@ -644,6 +644,46 @@ func (f *Facts) rangeOf(e string) (lo, hi int64, ne []int64) {
 
 // LowerBound returns the least value the facts allow for e (constants only;
 // != exclusions at the boundary are stepped over). Snapshot marks are ignored.
+// UpperBound returns the largest value e can take given the facts (snapshot
+// identities ignored), or the maximum int64 when unbounded.
+func (f *Facts) UpperBound(e string) int64 {
+	hi := int64(maxI)
+	var ne []int64
+	for _, a := range f.m {
+		l, r := Plain(a.L), Plain(a.R)
+		if l == e {
+			if c, ok := parseInt(r); ok {
+				switch a.Op {
+				case "==":
+					if c < hi {
+						hi = c
+					}
+				case "!=":
+					ne = append(ne, c)
+				case "<":
+					if c-1 < hi {
+						hi = c - 1
+					}
+				case "<=":
+					if c < hi {
+						hi = c
+					}
+				}
+			}
+		}
+	}
+	for changed := true; changed; {
+		changed = false
+		for _, n := range ne {
+			if n == hi {
+				hi--
+				changed = true
+			}
+		}
+	}
+	return hi
+}
+
 func (f *Facts) LowerBound(e string) int64 {
 	lo := int64(minI)
 	var ne []int64
